@@ -405,10 +405,80 @@ func trunc(s string) string {
 	return s
 }
 
+// ---- cycles without a struct node: a map, a list or an interface value that contains itself. Go gives such
+// values no identity the encoder could refer back to; what the property demands of them is the first half of
+// its statement: encoding ends (with the value or with an error), the process survives. Each kind runs in a
+// job of its own, so that a dead worker names it.
+var valueCycleKinds = []string{"map-contains-itself", "list-contains-itself", "interface-points-to-itself", "map-in-list-in-map", "list-of-two-lists-containing-each-other"}
+
+func valueCycle(kind string) interface{} {
+	switch kind {
+	case "map-contains-itself":
+		m := map[string]interface{}{"v": 1}
+		m["me"] = m
+		return m
+	case "list-contains-itself":
+		s := []interface{}{1, nil}
+		s[1] = s
+		return s
+	case "interface-points-to-itself":
+		var x interface{}
+		x = &x
+		return x
+	case "map-in-list-in-map":
+		m := map[interface{}]interface{}{}
+		m["l"] = []interface{}{m}
+		return m
+	case "list-of-two-lists-containing-each-other":
+		a, b := []interface{}{nil}, []interface{}{nil}
+		a[0], b[0] = b, a
+		return []interface{}{a, b}
+	}
+	panic(kind)
+}
+
+func checkValueCycle(kind string, res *result) {
+	for _, simple := range []bool{false, true} {
+		for _, entry := range []string{"formatter", "encoder"} {
+			v := valueCycle(kind)
+			var err error
+			var n int
+			msg, _ := iocase.Guard(func() {
+				if entry == "formatter" {
+					var b []byte
+					b, err = hio.Formatter{Simple: simple}.Marshal(v)
+					n = len(b)
+				} else {
+					enc := new(hio.Encoder).Simple(simple)
+					err = enc.Encode(v)
+					n = len(enc.Bytes())
+				}
+			})
+			res.Cases++
+			if msg != "" {
+				res.Viol = append(res.Viol, viol{Sig: "C02|valuecycle|panic|" + kind, What: fmt.Sprintf("%s, simple=%v, %s: encoding panics: %s", kind, simple, entry, msg), Replay: job{Part: "valuecycle", Kind: kind}})
+				continue
+			}
+			if err == nil {
+				res.Viol = append(res.Viol, viol{Sig: "C02|valuecycle|no-error-for-an-infinite-unfolding|" + kind, What: fmt.Sprintf("%s, simple=%v, %s: encoding a value that contains itself returned %d bytes and no error", kind, simple, entry, n), Replay: job{Part: "valuecycle", Kind: kind}})
+			}
+			// the encoder must be usable afterwards (a pooled one goes back to the pool)
+			if b, e := (hio.Formatter{Simple: simple}).Marshal([]interface{}{1, "ab"}); e != nil || len(b) == 0 {
+				res.Viol = append(res.Viol, viol{Sig: "C02|valuecycle|encoder-unusable-afterwards|" + kind, What: fmt.Sprintf("%s: the next Marshal fails: %v", kind, e), Replay: job{Part: "valuecycle", Kind: kind}})
+			}
+		}
+	}
+	if len(res.Samples) < 1 {
+		res.Samples = append(res.Samples, "value cycle "+kind+": encoding ends with an error")
+	}
+}
+
 func runJob(j job) result {
 	var res result
 	seen := map[string]bool{}
 	switch j.Part {
+	case "valuecycle":
+		checkValueCycle(j.Kind, &res)
 	case "graph":
 		for idx := j.Lo; idx < j.Hi; idx++ {
 			checkGraph(j.Kind, j.N, idx, &res, seen)
@@ -496,6 +566,10 @@ func main() {
 		}
 		jobs = append(jobs, job{Part: "items", Lo: lo, Hi: hi})
 	}
+	for _, k := range valueCycleKinds {
+		jobs = append(jobs, job{Part: "valuecycle", Kind: k})
+	}
+	space["value_cycle_kinds"] = len(valueCycleKinds)
 	var cases, distinct int64
 	samples := report.NewSamples(10)
 	shard.Run(jobs, shard.Options{JobTimeout: 10 * time.Minute}, func(i int, raw json.RawMessage, fail *shard.Failure) {
